@@ -95,7 +95,10 @@ def _shift(ck, name, D, N, C, pins, make, shifts, band=None):
 
     vals = enc.random_values(random.Random(7))
     ne = NumEval(vals, ack=enc.interp.ackdefs)
-    cand = [i for i in np.ndindex(enc.outs[0].shape) if any(i[1:]) and not sym.is_conc(enc.outs[0][i]) and abs(complex(ne.scalar(enc.outs[0][i]))) > 1e-6]
+    # component whose phase under the LAST shift is not 1 (m.s not a multiple of N), with a numerically non-zero output
+    modes = {idx: m for idx, m in orc.stored_modes(D, N)}
+    s_last = shifts[-1]
+    cand = [i for i in np.ndindex(enc.outs[0].shape) if sum(mm * ss for mm, ss in zip(modes[i[1:]], s_last)) % N != 0 and not sym.is_conc(enc.outs[0][i]) and abs(complex(ne.scalar(enc.outs[0][i]))) > 1e-6]
     if cand:
         j = cand[len(cand) // 2]
         ck.add(f"shift/{name}/D{D}N{N}/twin", sym.equal_goal(enc2.outs[0][j], enc.outs[0][j]), [L > 0], family="shift/twin", expect="sat", timeout=120)
